@@ -29,7 +29,8 @@ NB = {"quick": 16, "thorough": 64}
 
 
 def plan(tier):
-    return {"batches": NB[tier], "batch_timeout_s": 3000}
+    # thorough: one extra batch runs the repository's own test suite under the contracts (vf/suite_stage.py)
+    return {"batches": NB[tier] + (1 if tier == "thorough" else 0), "batch_timeout_s": 3000}
 
 
 def profile(tier, rng):
@@ -83,6 +84,12 @@ def build_maybe_scrambled(case, scr, b=None):
 
 
 def run_batch(seed, batch, tier):
+    if batch == NB[tier]:
+        from vf import suite_stage
+
+        b = Batch(PID, seed, batch, tier)
+        suite_stage.run(b, PID)
+        return b.result()
     monitors.install()
     b = Batch(PID, seed, batch, tier)
     sq = backends.Sqlite()
@@ -149,6 +156,8 @@ def run_batch(seed, batch, tier):
 
 
 def inconclusive(counters, sigs, tier):
+    if tier == "thorough" and counters.get("suite_stage", {}).get("ran", 0) == 0:
+        return "the repository-suite-under-monitors stage did not run: %s" % counters.get("suite_stage")
     rc = counters.get("results_checked", {})
     for be in ("pandas", "polars", "polars-lazy", "polars-eager-model", "sqlite", "pg-surrogate"):
         if rc.get(be, 0) < 50:
@@ -159,6 +168,10 @@ def inconclusive(counters, sigs, tier):
 
 
 def replay(v):
+    if "suite_test" in (v.get("case") or {}):
+        from vf import suite_stage
+
+        return suite_stage.replay(v, PID)
     monitors.install()
     c = v.get("case") or {}
     if "recipe" not in c:
